@@ -26,7 +26,7 @@ def named_target_b(*args, **kwargs):
 def gen_plan(run_seed, fault_mode='none'):
     wl = random.Random(core.sub_seed(run_seed, 'workload'))
     n = wl.randint(2, 30)
-    prios = wl.choice([[0], [0, 1], [-100, 0, 5], [0, 0, 0, 1, 2, 3]])
+    prios = wl.choice([[0], [0, 1], [-100, 0, 5], [0, 0, 0, 1, 2, 3], [0.5, 0, -0.5, 2.5, 2]])
     p_none = wl.choice([1.0, 0.7, 0.3])
     ops = []
     n_handlers = 1
